@@ -501,13 +501,57 @@ def _sorted_symset(ss):
     return SymList(Box(sq), ety)
 
 
+def _already_ordered(lst, key, reverse):
+    """does the path condition entail that the symbolic-length sequence is already in (non-strict) key
+    order?  Then sorted() (stable) returns it unchanged.  Pure query: nothing is assumed or recorded."""
+    from .spec import forall, implies
+    from .sym import mk_bool as _mkb
+    c = _c()
+    src = lst.term
+    ety = lst._elem
+    n = z3.Length(src)
+    before = len(c.decisions)
+
+    def k_of(t):
+        x = ety.wrap(t)
+        return key(x) if key else x
+
+    def goal(i):
+        def inner(j):
+            a, b = k_of(src[i.t]), k_of(src[j.t])
+            le = (a >= b) if reverse else (a <= b)
+            return implies(_mkb(z3.And(0 <= i.t, i.t < j.t, j.t < n)), le)
+        return forall(T.Int, inner, "so_j")
+    try:
+        term = c._goal_term(forall(T.Int, goal, "so_i"))
+    except OutOfReach:
+        return False
+    if len(c.decisions) != before:
+        raise OutOfReach("sorted(): the key function forks on a generic element")
+    s = c.solver
+    s.push()
+    s.add(z3.Not(term))
+    r = s.check()
+    s.pop()
+    if r == z3.unsat:
+        return True
+    s2 = z3.Solver()
+    s2.set("timeout", 10000)
+    s2.add(*c.pc)
+    s2.add(*c.qfacts)
+    s2.add(z3.Not(term))
+    return s2.check() == z3.unsat
+
+
 def sorted_(it, key=None, reverse=False):
     if _b.isinstance(it, SymSet) and key is None and not reverse and it._ty.elem in (T.Int, T.Str):
         return _sorted_symset(it)
     if _b.isinstance(it, SymList):
         n = z3.simplify(it._len())
         if not z3.is_int_value(n):
-            raise OutOfReach("sorted() over a sequence of symbolic length")
+            if _already_ordered(it, key, reverse):
+                return it.copy()        # a stable sort of an already ordered sequence is the sequence itself
+            raise OutOfReach("sorted() over a sequence of symbolic length (not provably ordered already)")
     items = list(it)
     # insertion sort driven by symbolic comparisons (stable), concrete length only
     out = []
@@ -531,10 +575,32 @@ def enumerate_(it, start=0):
         i += 1
 
 
+_HASH_P = (1 << 61) - 1
+_PY_HASH = {"str": z3.Function("py_hash_str", z3.IntSort(), z3.StringSort(), z3.IntSort()),
+            "bytes": z3.Function("py_hash_bytes", z3.IntSort(), z3.StringSort(), z3.IntSort())}
+
+
+def hash_seed_term():
+    """the ghost 'hash seed' (PYTHONHASHSEED) of the environment the code currently runs in: ctx.ghost_args
+    ["hash_seed"], an Int term; a spec driver that runs a function under two environments overwrites it"""
+    c = _c()
+    seed = c.ghost_args.get("hash_seed")
+    if seed is None:
+        seed = c.ghost_args["hash_seed"] = c.fresh("hash_seed", z3.IntSort())
+    return seed
+
+
 def hash_(x):
     if _b.isinstance(x, SymInt):
-        # CPython: hash(int) is the int modulo 2**61-1 (sign kept); environment independent.
-        raise OutOfReach("hash() of symbolic int")
+        # CPython: hash(int) is the int modulo 2**61-1 (sign kept, -1 mapped to -2); environment independent.
+        t = x.t
+        m = z3.If(t >= 0, t % _HASH_P, -((-t) % _HASH_P))
+        return mk_num(z3.If(m == -1, z3.IntVal(-2), m))
+    if _b.isinstance(x, (SymStr, SymBytes)):
+        # str/bytes hashing is randomised per process: an uninterpreted function of (hash seed, value)
+        r = _PY_HASH["str" if _b.isinstance(x, SymStr) else "bytes"](hash_seed_term(), x.t)
+        _c().assume(z3.And(r >= -(1 << 63), r < (1 << 63)))
+        return mk_num(r)
     if is_sym(x) or _b.isinstance(x, ObjProxy):
         raise OutOfReach("hash() of symbolic value")
     return hash(x)
@@ -609,7 +675,25 @@ def fstr_(*parts):
     return SymStr(z3.Concat(*terms) if len(terms) > 1 else terms[0])
 
 
+class _TypeMeta(type):
+    def __instancecheck__(cls, obj):
+        return _b.isinstance(obj, type)
+
+
+class type_(metaclass=_TypeMeta):
+    """type(x): the declared class for a symbolic object reference, the builtin otherwise"""
+
+    def __new__(cls, *a, **k):
+        if len(a) == 1 and not k:
+            x = a[0]
+            if _b.isinstance(x, ObjProxy):
+                return x._cls
+            return type(x)
+        return type(*a, **k)
+
+
 SHIMS = {
+    "type": type_,
     "int": int_, "float": float_, "bool": bool_, "str": str_, "list": list_, "dict": dict_, "set": set_,
     "tuple": tuple_, "len": len_, "abs": abs_, "min": min_, "max": max_, "sum": sum_, "any": any_,
     "all": all_, "round": round_, "range": range_, "sorted": sorted_, "enumerate": enumerate_,
